@@ -17,4 +17,4 @@ Definition is_max (vs : list (Z * Z)) (m : Z) : Prop :=
 
 (* enum indexes are Go ints *)
 Definition op_in_range (o : enum_op) : Prop :=
-  match o with EAdd _ idx => - two63 <= idx < two63 | _ => True end.
+  match o with EAdd _ idx | EUpdate _ idx => - two63 <= idx < two63 | _ => True end.
